@@ -54,6 +54,8 @@ def events(tr):
                 kinds.add(spec['kind'])
                 if rk == 2:
                     jr = spec['routers'][node - 1] if spec['kind'] == 'nr' else None
+                    if jr and jr['kind'] == 'jockey_alt':
+                        continue            # the harness's stateful jockeying rule: the destination is not a function of the configuration
                     exp = ex(jr['jock']) if jr and jr['kind'] == 'jockey' else 0
                     out.append([2, exp, dest]); meta.append(fi + 1); stats['determined'] += 1
                 elif spec['kind'] == 'tm':
@@ -63,7 +65,7 @@ def events(tr):
                 elif spec['kind'] == 'nr':
                     r = spec['routers'][node - 1]
                     kinds.add(r['kind'])
-                    if r['kind'] in ('direct', 'jockey'):
+                    if r['kind'] in ('direct', 'jockey', 'jockey_alt'):
                         out.append([2, ex(r['to']), dest]); stats['determined'] += 1
                     elif r['kind'] == 'leave':
                         out.append([2, 0, dest]); stats['determined'] += 1
